@@ -9,7 +9,9 @@ TRACE_CFG = "PipelineTrace.cfg"
 RULE = ("random exact-domain UFOs (incl. widths equal to the default / nominal width, zero-length and implied closing "
         "segments) x ALL 18 combinations optimizeCFF {0,1,2} x subroutinizer {None, cffsubr, compreffor} x cffVersion {1,2}; "
         "every supported combination must draw the source outline (same expectation as C01), same advances, byte-equal "
-        "layout tables; the unsupported combination must raise NotImplementedError; non-trivial = glyph set with curves or "
+        "layout tables; the unsupported combination must raise NotImplementedError; plus 2-3 master families with a segment that "
+        "degenerates in one master only, through compileVariableCFF2 at levels 0/1/2 (instantiated at every master location) and "
+        "compileInterpolatableOTFsFromDS at levels 0/1, each judged against the master's source; non-trivial = glyph set with curves or "
         "components; distinct by (source digest, combination)")
 ASSUMPTIONS = ["fontTools' charstring interpreter decodes subroutinised / specialised / CFF2 charstrings (trusted)",
                "cffsubr / compreffor are environment"]
@@ -39,10 +41,33 @@ def cases(tier, seed):
         ufo = {"glyphs": glyphs, "info": {"unitsPerEm": 1000, "ascender": 800, "descender": -200},
                "kerning": [[names[0], names[1], -40]], "kernScale": 1}
         out.append({"cid": f"c12-{seed}-{k}", "lib": rng.choice(["ufoLib2", "defcon"]), "ufo": ufo})
+    # designspace paths: masters must stay unspecialised whatever level is asked for, the variable font is optimised as a whole
+    for k in range(8 if tier == "quick" else 100):
+        base = gen.glyphset(rng, nmin=3, nmax=6, max_depth=2, kinds=["line", "cubic", "mixed"], unicodes=True)
+        nm = rng.choice([2, 3])
+        masters = [base] + [gen.perturb_master(rng, base, change_2x2=0.0) for _ in range(nm - 1)]
+        # a segment that degenerates (two consecutive on-curve points coincide) in ONE master only
+        which = rng.randrange(nm)
+        for g in masters[which].values():
+            for c in g["cs"]:
+                idx = [i for i in range(2, len(c)) if c[i][2] == "line" and c[i - 1][2] != "off"]
+                if idx and rng.random() < 0.7:
+                    i = rng.choice(idx)
+                    c[i][0], c[i][1] = c[i - 1][0], c[i - 1][1]
+        out.append({"cid": f"c12-{seed}-ds{k}", "lib": rng.choice(["ufoLib2", "defcon"]), "masters": masters, "ds": True})
     return out
 
 
 def execute(case):
+    if case.get("ds"):
+        recs = []
+        for fn, levels in (("varcff2", (0, 1, 2)), ("interp", (0, 1))):
+            for o in levels:
+                sub = {"cid": f"{case['cid']}/{fn}-o{o}", "lib": case["lib"], "masters": case["masters"], "fn": fn, "kwargs": {"optimizeCFF": o}}
+                for rec in compile_exec.interp_cff_compile(sub):
+                    rec["_sig"] = rec["tid"]
+                    recs.append(rec)
+        return recs
     recs = []
     base_layout = None
     for (o, s, v) in COMBOS:
